@@ -36,6 +36,14 @@ func (s *Translator) translateWith() error {
 			}
 		}
 
+		// The order of a with clause is written into the same select as its projection items, so its expressions are
+		// bound while the frames still are what they are for the items
+		for _, orderByExpression := range currentPart.SortItems {
+			if err := RewriteFrameBindings(s.scope, orderByExpression); err != nil {
+				return err
+			}
+		}
+
 		// If an aggregation function is being used, this invokes an implicit group by of non-function projections
 		for _, projectionItem := range currentPart.projections.Items {
 			if aggregatedFunctionSymbols, err := GetAggregatedFunctionParameterSymbolsIn(projectionItem.SelectItem); err != nil {
